@@ -1,15 +1,26 @@
 #!/bin/sh
-# usage: tools/seed_regress.sh [tier]   applies every confirmed seeded change in turn and runs its property's check
+# usage: tools/seed_regress.sh [tier] [name...]   applies every confirmed seeded change in turn (or the named ones),
+# runs its property's check and records the outcome in seeded/<name>/meta.json ("regress")
 V=$(cd "$(dirname "$0")/.." && pwd)
 R="${VERIF_REPO:-/repo}"
 cd $V
-tier="${1:-quick}"
-for d in seeded/*/; do
-  n=$(basename $d)
+tier="${1:-quick}"; [ $# -gt 0 ] && shift
+names="$*"; [ -z "$names" ] && names=$(ls seeded)
+for n in $names; do
+  d=seeded/$n
   id=$(echo $n | cut -d- -f1)
   if ! git -C "$R" apply --check $V/$d/patch.diff 2>/dev/null; then echo "$n does-not-apply"; continue; fi
   out=$(tools/try_patch.sh $V/$d/patch.diff $id $tier 2>&1 | grep -v "^KNOWN-FINDING\|WARNING conda" | tail -3)
   if echo "$out" | grep -q "^VIOLATION"; then
-    if echo "$out" | grep -q "no-failing-input-found"; then echo "$n caught-without-input"; else echo "$n caught"; fi
-  else echo "$n MISSED"; fi
+    if echo "$out" | grep -q "no-failing-input-found"; then res="caught-without-input"; else res="caught"; fi
+  else res="MISSED"; fi
+  echo "$n $res"
+  python3 - "$d/meta.json" "$id $tier seed=${VERIF_SEED:-1}" "$res" <<'PY'
+import json,sys
+p,chk,res=sys.argv[1:4]
+try: m=json.load(open(p))
+except Exception: sys.exit(0)
+m["regress"]={"check":chk,"result":res}
+json.dump(m,open(p,"w"),indent=1)
+PY
 done
